@@ -59,9 +59,9 @@ structure Inv (P : Partition) (s : GState V) : Prop where
   /-- the payload of every send of an executed part has been handed over -/
   sentSome : ∀ a q, q ∈ P.parts a → q.pid ∈ (s.rk a).executed →
     ∀ sd ∈ q.sends, (s.sent a sd.dst sd.tag).isSome
-  /-- outputs nobody reads are kept once produced -/
+  /-- overall outputs are kept once produced -/
   kept : ∀ r n, (∃ q ∈ P.parts r, q.pid ∈ (s.rk r).executed ∧ n ∈ q.outputs) →
-    (∀ p ∈ P.parts r, n ∉ p.inputs) → ((s.rk r).ctx n).isSome
+    n ∈ P.overall r → ((s.rk r).ctx n).isSome
 
 theorem inv_init (P : Partition) : Inv P (init sem P) := by
   refine ⟨?_, ?_, ?_, ?_, ?_⟩
@@ -88,7 +88,7 @@ theorem arrived_sent_some {P : Partition} {s : GState V} (hinv : Inv P s) {r : N
 
 theorem liveReaders_exec_lt {P : Partition} (s : GState V) (r : Nat) (p : Part) (n : Name)
     (hp : p ∈ P.parts r) (hne : p.pid ∉ (s.rk r).executed) (hn : n ∈ p.inputs) :
-    liveReaders P (execG sem s r p) r n < liveReaders P s r n := by
+    liveReaders P (execG sem P s r p) r n < liveReaders P s r n := by
   unfold liveReaders
   simp only [execG, execR, if_true]
   apply filter_length_lt
@@ -98,7 +98,7 @@ theorem liveReaders_exec_lt {P : Partition} (s : GState V) (r : Nat) (p : Part) 
   · exact ⟨p, hp, by simpa using ⟨hn, hne⟩, by simp⟩
 
 theorem liveReaders_exec_le {P : Partition} (s : GState V) (r : Nat) (p : Part) (n : Name) :
-    liveReaders P (execG sem s r p) r n ≤ liveReaders P s r n := by
+    liveReaders P (execG sem P s r p) r n ≤ liveReaders P s r n := by
   unfold liveReaders
   simp only [execG, execR, if_true]
   apply filter_length_le
@@ -119,7 +119,7 @@ theorem inv_step {P : Partition} {lvl : Nat → Nat → Nat}
     (hinv : Inv P s) (h : Step sem P s l s') : Inv P s' := by
   cases h with
   | exec r p hr hp hrdy =>
-    obtain ⟨hpids, _, _, _, hsentout, _, _⟩ := hwf r hr
+    obtain ⟨hpids, _, _, _, hsentout, _⟩ := hwf r hr
     obtain ⟨hne, hneeds, hrecvs⟩ := hrdy
     refine ⟨?_, ?_, ?_, ?_, ?_⟩
     · -- closed
@@ -142,15 +142,15 @@ theorem inv_step {P : Partition} {lvl : Nat → Nat → Nat}
         by_cases hn : n ∈ p.inputs
         · have h1 := liveReaders_exec_lt sem s r' p n hp hne hn
           have h2 := hinv.rcGe r' n
-          have : ((execG sem s r' p).rk r').rc n = (s.rk r').rc n - 1 := by
+          have : ((execG sem P s r' p).rk r').rc n = (s.rk r').rc n - 1 := by
             simp [execG, execR, hn]
           omega
         · have h1 := liveReaders_exec_le (P := P) sem s r' p n
           have h2 := hinv.rcGe r' n
-          have : ((execG sem s r' p).rk r').rc n = (s.rk r').rc n := by
+          have : ((execG sem P s r' p).rk r').rc n = (s.rk r').rc n := by
             simp [execG, execR, hn]
           omega
-      · have : liveReaders P (execG sem s r p) r' n = liveReaders P s r' n := by
+      · have : liveReaders P (execG sem P s r p) r' n = liveReaders P s r' n := by
           simp [liveReaders, execG, hrr]
         rw [this]
         simp only [execG, hrr, if_false]
@@ -163,12 +163,12 @@ theorem inv_step {P : Partition} {lvl : Nat → Nat → Nat}
         simp only [execG, execR, if_true] at hne' hprod ⊢
         have hne'old : p'.pid ∉ (s.rk r').executed := fun hm => hne' (List.mem_cons_of_mem _ hm)
         -- the name is not released: p' still needs it
-        have hnotrel : ¬ (n ∈ p.inputs ∧ (s.rk r').rc n - 1 = 0) := by
-          intro ⟨hn, hz⟩
+        have hnotrel : ¬ (n ∈ p.inputs ∧ (s.rk r').rc n - 1 = 0 ∧ n ∉ P.overall r') := by
+          intro ⟨hn, hz, _⟩
           have h1 := liveReaders_exec_lt sem s r' p n hp hne hn
           have h2 := hinv.rcGe r' n
-          have h3 : 0 < liveReaders P (execG sem s r' p) r' n := by
-            apply liveReaders_pos (execG sem s r' p) r' n p' hp' _ hn'
+          have h3 : 0 < liveReaders P (execG sem P s r' p) r' n := by
+            apply liveReaders_pos (execG sem P s r' p) r' n p' hp' _ hn'
             simpa [execG, execR] using hne'
           omega
         simp only [hnotrel, if_false, ctxMid]
@@ -216,8 +216,9 @@ theorem inv_step {P : Partition} {lvl : Nat → Nat → Nat}
       · subst hrr
         obtain ⟨q, hq, hqe, hqn⟩ := hq
         simp only [execG, execR, if_true] at hqe ⊢
-        have hnp : n ∉ p.inputs := hnr p hp
-        simp only [hnp, false_and, if_false, ctxMid]
+        have hnotrel : ¬ (n ∈ p.inputs ∧ (s.rk r').rc n - 1 = 0 ∧ n ∉ P.overall r') :=
+          fun h => h.2.2 hnr
+        simp only [hnotrel, if_false, ctxMid]
         by_cases hout : n ∈ p.outputs
         · simp [hout]
         · simp only [hout, if_false]
@@ -337,7 +338,7 @@ theorem inputs_present_lemma {P : Partition} (hwf : WFexec P) {s : GState V}
     ∀ n ∈ p.inputs, ((s.rk r).ctx n).isSome := by
   have hinv := inv_reachable sem hwf hreach
   obtain ⟨lvl, hwf⟩ := hwf
-  obtain ⟨hpids, _, _, _, _, hreads, _⟩ := hwf r hr
+  obtain ⟨hpids, _, _, _, _, hreads⟩ := hwf r hr
   obtain ⟨hne, hneeds, hrecvs⟩ := hrdy
   have hneedsOf : ∀ x ∈ needsOf (P.parts r) p.pid, x ∈ (s.rk r).executed := by
     intro x hx
@@ -430,7 +431,7 @@ theorem agree_reachable {P : Partition} (hwf : WFexec P) {ref : Nat → Name →
         by_cases hrr : r' = r
         · subst hrr
           simp only [execG, execR, if_true] at h
-          by_cases hrel : n ∈ p.inputs ∧ (s.rk r').rc n - 1 = 0
+          by_cases hrel : n ∈ p.inputs ∧ (s.rk r').rc n - 1 = 0 ∧ n ∉ P.overall r'
           · simp [hrel] at h
           · simp only [hrel, if_false] at h
             exact hmid n v h
@@ -485,11 +486,11 @@ theorem faithful_lemma {P : Partition} (hwf : WFexec P) {ref : Nat → Name → 
   have hinv := inv_reachable sem hwf hreach
   have hag := agree_reachable sem hwf hsol hreach
   obtain ⟨lvl, hwf'⟩ := hwf
-  obtain ⟨_, _, _, hprod, _, _, hnotread⟩ := hwf' r hr
+  obtain ⟨_, _, _, hprod, _, _⟩ := hwf' r hr
   have hmem := hprod n hn
   unfold allOutputs at hmem
   obtain ⟨q, hq, hqn⟩ := List.mem_flatMap.1 hmem
-  have hsome := hinv.kept r n ⟨q, hq, hterm r hr q hq, hqn⟩ (hnotread n hn)
+  have hsome := hinv.kept r n ⟨q, hq, hterm r hr q hq, hqn⟩ hn
   cases hc : (s.rk r).ctx n with
   | none => simp [hc] at hsome
   | some v => rw [hag.ctx r n v hc]
